@@ -8,45 +8,21 @@
    harness (every single schema fault at every JSON path, arbitrary bytes, a watchdog), not proved. *)
 From Coq Require Import Lia.
 From Verif Require Import Model.Base Model.Node Model.Graph Model.Match Model.Sniff Model.Spdx Model.Cdx Gen.Tables
-  Proofs.GraphFacts Proofs.SniffFacts Proofs.SpdxFacts Proofs.CdxFacts.
+  Model.Parse Proofs.GraphFacts Proofs.SniffFacts Proofs.SpdxFacts Proofs.CdxFacts Proofs.ParseFacts.
 Open Scope list_scope.
 
-Inductive decoded := DecSpdx (s : sdoc) | DecCdx (b : cbom) | DecFail.
-
-Section Pipeline.
-  Variable parse_time : string -> option ts.
-  (* the third-party decoder for a detected format, on the bytes at hand *)
-  Variable decode : string -> decoded.
-
-  (* reader.ParseStream: detect, dispatch, convert *)
-  Definition parse (d : option decl) (lines : list string) : result nodelist :=
-    match sniff d lines with
-    | Ok f => match decode f with
-              | DecSpdx s => Ok (spdx_unser_nl parse_time s)
-              | DecCdx b => Ok (cdx_unser_nl b)
-              | DecFail => Err
-              end
-    | Err => Err
-    | Panic => Panic
-    | Fatal => Fatal
-    end.
-
-  (* a document (whose node list is present) or an error; never a panic, never both, never neither *)
-  Theorem C04_document_or_error : forall d lines,
-    parse d lines = Err \/ exists nl, parse d lines = Ok nl.
-  Proof.
-    intros d lines. unfold parse. destruct (sniff_total d lines) as [[f E]|E]; rewrite E; [|left; reflexivity].
-    destruct (decode f); [right; eexists; reflexivity|right; eexists; reflexivity|left; reflexivity].
-  Qed.
-
-  (* what a CycloneDX parse returns is a closed graph, whatever was decoded *)
-  Theorem C04_cdx_result_well_formed : forall d lines f b,
-    sniff d lines = Ok f -> decode f = DecCdx b -> exists nl, parse d lines = Ok nl /\ wf nl.
-  Proof.
-    intros d lines f b E1 E2. unfold parse. rewrite E1, E2. eexists. split; [reflexivity|apply cdx_unser_wf].
-  Qed.
-End Pipeline.
+(* reader.ParseStream as composed in Model/Parse.v: detect, dispatch to the decoder (a parameter),
+   convert.  A document (whose node list is present) or an error; never a panic, never both, never
+   neither — for every declaration, every line list and every behaviour of the decoder *)
+Theorem C04_document_or_error : forall parse_time decode d lines,
+  parse parse_time decode d lines = Err \/ exists nl, parse parse_time decode d lines = Ok nl.
+Proof. exact parse_document_or_error. Qed.
 Print Assumptions C04_document_or_error.
+
+(* what a CycloneDX parse returns is a closed graph, whatever was decoded *)
+Theorem C04_cdx_result_well_formed : forall parse_time decode d lines f b,
+  sniff d lines = Ok f -> decode f = DecCdx b -> exists nl, parse parse_time decode d lines = Ok nl /\ wf nl.
+Proof. exact parse_cdx_well_formed. Qed.
 Print Assumptions C04_cdx_result_well_formed.
 
 (* the conversion does not blow its input up: no more nodes than components / elements, no more
@@ -59,22 +35,14 @@ Theorem C04_spdx_output_bounded : forall parse_time s,
   let nl := spdx_unser_nl parse_time s in
   length (nl_nodes nl) = (length (sd_packages s) + length (sd_files s))%nat /\
   (length (nl_edges nl) + length (nl_root_elements nl) = length (sd_rels s))%nat.
-Proof.
-  intros parse_time s. cbn [spdx_unser_nl nl_nodes nl_edges nl_root_elements]. rewrite app_length, !map_length.
-  split; [reflexivity|].
-  induction (sd_rels s) as [|r rest IH]; [reflexivity|]. cbn [filter]. destruct (is_describes r); cbn [negb length]; lia.
-Qed.
+Proof. exact spdx_output_bounded. Qed.
 Print Assumptions C04_spdx_output_bounded.
 
 (* licence entries without a licence object, with an empty one, or with neither are skipped *)
 Theorem C04_licence_entries_without_object : forall ls,
   lic_list (ls ++ [ {| cl_expression := ""; cl_has_license := false; cl_id := "whatever" |} ]) = lic_list ls /\
   lic_string ({| cl_expression := ""; cl_has_license := false; cl_id := "whatever" |} :: ls) = lic_string ls.
-Proof.
-  intros ls. split.
-  - unfold lic_list. rewrite filter_app. cbn [filter cl_expression cl_has_license String.eqb negb andb orb]. rewrite app_nil_r. reflexivity.
-  - reflexivity.
-Qed.
+Proof. exact lic_entries_without_object. Qed.
 Print Assumptions C04_licence_entries_without_object.
 
 Example C04_example :
